@@ -366,7 +366,7 @@ def r4(ck, F):
             ck.bad("C03.R4", "%s drops the span it reads out" % fn, where(b.raw["sp"]), "the Span read out of ManuallyDrop<Self> is not dropped on every path: its close notification would be lost", fn=fn)
 
 
-def r5(ck, F):
+def r5(ck, F, rid="C03.R5"):
     # guards constructed only in Span::enter / Span::entered, after do_enter on the same span
     for adt, maker, field_src in ((SP + "Entered", SP + "Span::enter", "ref"), (SP + "EnteredSpan", SP + "Span::entered", "move")):
         aggs = aggregates_of(F, adt, HANDLE_CRATES)
@@ -383,16 +383,16 @@ def r5(ck, F):
                 src = b.origin(sp_op)
                 ok = recv[0] == "arg" and recv[1] == 1 and src[0] == "arg" and src[1] == 1
             if ok:
-                ck.ok("C03.R5", key, detail="do_enter(self) dominates the guard construction; guard.span is self", fn=maker)
+                ck.ok(rid, key, detail="do_enter(self) dominates the guard construction; guard.span is self", fn=maker)
             else:
-                ck.bad("C03.R5", key, where(s["sp"]), "the guard is built without having entered the same span first", fn=maker)
+                ck.bad(rid, key, where(s["sp"]), "the guard is built without having entered the same span first", fn=maker)
         else:
-            ck.bad("C03.R5", key, str(sorted(makers)), "guard values are built in %s" % sorted(makers))
+            ck.bad(rid, key, str(sorted(makers)), "guard values are built in %s" % sorted(makers))
     # both Drop impls call do_exit on every path
     for ty in ("Entered<'_>", "EnteredSpan"):
         dp = "<%s%s as core::ops::drop::Drop>::drop" % (SP, ty)
         b = F.body(dp)
-        if not ck.anchor("C03.R5", dp, b):
+        if not ck.anchor(rid, dp, b):
             continue
         ex = [bb for bb, t in b.calls() if t["callee"].get("path") == SP + "Span::do_exit"]
         ok = len(ex) == 1 and b.postdominates(ex[0], 0)
@@ -400,13 +400,13 @@ def r5(ck, F):
             r = b.origin(b.term(ex[0])["argv"][0])
             ok = r[0] == "arg" and r[1] == 1 and proj_names(r[2]) == ["span"]
         if ok:
-            ck.ok("C03.R5", "Drop for %s exits unconditionally" % ty, fn=dp)
+            ck.ok(rid, "Drop for %s exits unconditionally" % ty, fn=dp)
         else:
-            ck.bad("C03.R5", "Drop for %s exits unconditionally" % ty, where(b.raw["sp"]), "do_exit(self.span) is not executed exactly once on every path of the guard's drop", fn=dp)
+            ck.bad(rid, "Drop for %s exits unconditionally" % ty, where(b.raw["sp"]), "do_exit(self.span) is not executed exactly once on every path of the guard's drop", fn=dp)
     # do_enter/do_exit call the collector exactly when inner is Some
     for fn, m in ((SP + "Span::do_enter", "enter"), (SP + "Span::do_exit", "exit")):
         b = F.body(fn)
-        if not ck.anchor("C03.R5", fn, b):
+        if not ck.anchor(rid, fn, b):
             continue
         cs = [bb for bb, t in b.calls() if t["callee"].get("impl_adt") == DISPATCH and t["callee"].get("method") == m]
         ok = len(cs) == 1
@@ -419,12 +419,12 @@ def r5(ck, F):
                 if some != (cs[0] in p.blocks) or not tested:
                     ok = False      # (a return before `inner` is even looked at skips the notification for an enabled span)
         if ok:
-            ck.ok("C03.R5", "%s notifies the collector exactly when the span is enabled" % fn.rsplit("::", 1)[1], fn=fn)
+            ck.ok(rid, "%s notifies the collector exactly when the span is enabled" % fn.rsplit("::", 1)[1], fn=fn)
         else:
-            ck.bad("C03.R5", "%s notifies the collector exactly when the span is enabled" % fn.rsplit("::", 1)[1], where(b.raw["sp"]), "collector.%s is not executed exactly on the inner==Some paths" % m, fn=fn)
+            ck.bad(rid, "%s notifies the collector exactly when the span is enabled" % fn.rsplit("::", 1)[1], where(b.raw["sp"]), "collector.%s is not executed exactly on the inner==Some paths" % m, fn=fn)
     # EnteredSpan::exit: replace by Span::none(), then do_exit once on the moved-out span
     ex = F.body(SP + "EnteredSpan::exit")
-    if ck.anchor("C03.R5", "EnteredSpan::exit", ex):
+    if ck.anchor(rid, "EnteredSpan::exit", ex):
         rep = [(bb, t) for bb, t in ex.calls() if t["callee"].get("path") == "core::mem::replace"]
         de = [(bb, t) for bb, t in ex.calls() if t["callee"].get("path") == SP + "Span::do_exit"]
         ok = len(rep) == 1 and len(de) == 1 and ex.dominates(rep[0][0], de[0][0])
@@ -432,12 +432,12 @@ def r5(ck, F):
             o = ex.origin(de[0][1]["argv"][0])
             ok = o[0] == "call" and o[1] == rep[0][0]
         if ok:
-            ck.ok("C03.R5", "EnteredSpan::exit exits once and disarms the guard", fn=ex.path)
+            ck.ok(rid, "EnteredSpan::exit exits once and disarms the guard", fn=ex.path)
         else:
-            ck.bad("C03.R5", "EnteredSpan::exit exits once and disarms the guard", where(ex.raw["sp"]), "expected mem::replace(&mut self.span, Span::none()) followed by do_exit on the moved-out span", fn=ex.path)
+            ck.bad(rid, "EnteredSpan::exit exits once and disarms the guard", where(ex.raw["sp"]), "expected mem::replace(&mut self.span, Span::none()) followed by do_exit on the moved-out span", fn=ex.path)
     # in_scope: guard held across f(), dropped on return and unwind
     ins = F.body(SP + "Span::in_scope")
-    if ck.anchor("C03.R5", "Span::in_scope", ins):
+    if ck.anchor(rid, "Span::in_scope", ins):
         en = [(bb, t) for bb, t in ins.calls() if t["callee"].get("path") == SP + "Span::enter"]
         fc = [(bb, t) for bb, t in ins.calls() if t["callee"].get("method") == "call_once"]
         ok = len(en) == 1 and len(fc) == 1 and ins.dominates(en[0][0], fc[0][0])
@@ -446,9 +446,9 @@ def r5(ck, F):
             drops = drop_blocks(ins, gl)
             ok = not dropped_on_all_exits(ins, fc[0][0], drops)
         if ok:
-            ck.ok("C03.R5", "in_scope holds the guard across f() and exits on panic", fn=ins.path)
+            ck.ok(rid, "in_scope holds the guard across f() and exits on panic", fn=ins.path)
         else:
-            ck.bad("C03.R5", "in_scope holds the guard across f() and exits on panic", where(ins.raw["sp"]), "the Entered guard is not dropped after f() on both the return and the unwind path", fn=ins.path)
+            ck.bad(rid, "in_scope holds the guard across f() and exits on panic", where(ins.raw["sp"]), "the Entered guard is not dropped after f() on both the return and the unwind path", fn=ins.path)
 
 
 def r6(ck, F):
